@@ -270,6 +270,9 @@ func init() {
 				} else if i%12 == 1 {
 					prog = g.zeroShareProgram()
 					c.count("directed:zeroShare")
+				} else if i%12 == 7 {
+					prog = g.saveAllDebtProgram()
+					c.count("directed:saveAllDebt")
 				} else {
 					prog = g.Program()
 				}
